@@ -50,6 +50,10 @@ CHECKS = {
             "For 8 ill-conditioned base configurations (Shewchuk's classroom example, segments with endpoints at 2^52, exactly collinear integers at 2^51, nearly parallel lines, a thin triangle, mixed magnitudes 2^-30..2^30, far from the origin, negative quadrant) the query point ranges over every point of a w x w ulp lattice (96^2 quick, 384^2 thorough); orient2d (f64, f32), point-on-segment, segment-segment intersects, line_intersection presence, ring/polygon/triangle/rect point location, contains/intersects and winding_order must equal exact arithmetic on the dyadic values; hull vertex sets on window points; integer kernels on all lattice triples at magnitudes up to 2^29.",
             "The domain 'all finite f64' is not enumerable: coverage is the stated windows only. The evidence reports on how many window points the naive determinant is wrong (the check aborts as vacuous if none). One known finding: quick_hull is not robust on such points.",
             "DESIGN.md §4 C03"),
+    "C11": ("E1-grid", "bounded exhaustive enumeration of segment pairs (lattice, incl. zero-length) and ulp windows vs exact rational / big-integer classification",
+            "Every ordered pair of segments over the 5x5 lattice (thorough 6x6) including zero-length operands: None / SinglePoint(proper iff interior to both) / Collinear with the exact shared sub-segment, improper point bit-identical to the endpoint, proper point within 4 ulp of the exact rational crossing and in both bounding boxes, agreement with Line::intersects, invariance under swapping and reversing the operands; plus one endpoint ranging over every point of ulp windows around nearly-parallel, touching, collinear-overlap and 2^52-magnitude configurations against exact big-integer classification.",
+            "Bounding-box containment of proper points is asserted with a 4-ulp slack (reading of 'within a few ulps'; measured 1 ulp from the nearest-endpoint fallback).",
+            "DESIGN.md §4 C11"),
 }
 
 NOT_YET = "check not built yet in this round (planned: bounded exhaustive exploration, see DESIGN.md §4)"
